@@ -63,4 +63,65 @@ inline void run_stress(Engine& E, Rng& r) {
     }
 }
 
+// ---------------------------------------------------------------------------------------------- class C: credit-bounded traffic
+// A bounded queue of capacity cap with cap credits in circulation: a producer takes a credit BEFORE it calls try_push / try_emplace, a
+// consumer gives one back AFTER its try_pop returned an item. While a producer holds a credit at most cap-1 other credits are out, so at
+// most cap-1 values are inside or on their way in: the queue is not full at any instant of the producer's call, and a linearizable
+// bounded queue must accept the push. Any `false` is a violation - no history search needed, so millions of try_push calls against
+// concurrent pops and competing pushes can be judged (the conservative interval bound of class S cannot see a try_push that compares the
+// tail it lost the CAS for with a head it read before). Also checked: per-producer FIFO order at each consumer, nothing lost or duplicated.
+inline void run_credit(Engine& E, Rng& r) {
+    (void)E;
+    Result& R = result();
+    const int np = 2 + (int)r.below(5), nc = 1 + (int)r.below(3);
+    const long cap = r.pick(std::vector<long>{ 2, 2, 3, 4, 4, 8, 16 });
+    const int per = 400 + (int)r.below(2600);
+    const uint64_t seed = r.next();
+    const bool pin2 = r.chance(1, 3);
+    hang_ctx().begin('C', cap, "{\"class\":\"C\",\"seed\":" + std::to_string(seed) + ",\"producers\":" + std::to_string(np) + ",\"consumers\":" + std::to_string(nc) + ",\"pushes_per_producer\":" + std::to_string(per) + ",\"capacity\":" + std::to_string(cap) + "}");
+    tbb::concurrent_bounded_queue<long> q; q.set_capacity((std::ptrdiff_t)cap);
+    std::atomic<long> credits{cap}, produced{0}, consumed{0}, false_full{0}, fifo_bad{0}; std::atomic<int> producers_left{np};
+    std::atomic<long> first_bad_val{-1};
+    perturb_random(r, hook_ids());
+    std::vector<std::thread> th;
+    Barrier start(np + nc);
+    auto pin = [&](int t) { if (!pin2) return; cpu_set_t cs; CPU_ZERO(&cs); CPU_SET(t & 1, &cs); pthread_setaffinity_np(pthread_self(), sizeof cs, &cs); };
+    for (int p = 0; p < np; p++) th.emplace_back([&, p] {
+        pin(p); Rng tr(mix(seed, 100 + p)); start.wait();
+        for (int i = 0; i < per; i++) {
+            for (int spins = 0;; ) { long c = credits.load(std::memory_order_acquire); if (c > 0 && credits.compare_exchange_weak(c, c - 1, std::memory_order_acq_rel)) break; if (++spins > 30) { sched_yield(); spins = 0; } }
+            long v = (long)p * 10000000L + i;
+            bool ok = tr.chance(1, 2) ? q.try_push(v) : q.try_emplace(v);
+            if (!ok) { false_full.fetch_add(1, std::memory_order_relaxed); long e = -1; first_bad_val.compare_exchange_strong(e, v); credits.fetch_add(1, std::memory_order_release); }
+            else produced.fetch_add(1, std::memory_order_relaxed);
+            if ((i & 63) == 0) progress();
+        }
+        producers_left.fetch_sub(1, std::memory_order_release);
+    });
+    for (int c = 0; c < nc; c++) th.emplace_back([&, c] {
+        pin(np + c); std::vector<long> last(np, -1); start.wait(); int idle = 0;
+        for (;;) {
+            long v;
+            if (q.try_pop(v)) {
+                idle = 0; int p = (int)(v / 10000000L); long i = v % 10000000L;
+                if (p < 0 || p >= np || i <= last[p]) fifo_bad.fetch_add(1, std::memory_order_relaxed); else last[p] = i;
+                consumed.fetch_add(1, std::memory_order_relaxed);
+                credits.fetch_add(1, std::memory_order_release);
+            } else {
+                if (producers_left.load(std::memory_order_acquire) == 0 && consumed.load() >= produced.load()) break;
+                if (++idle > 20) { sched_yield(); idle = 0; }
+            }
+        }
+    });
+    for (auto& t : th) t.join();
+    perturb().clear();
+    R.scenarios++; R.nontrivial++;
+    R.stat("C_scenarios"); R.stat("C_try_push_calls_holding_a_credit", (long long)np * per); R.stat("C_values_delivered", consumed.load());
+    R.signature(mix(mix((uint64_t)np * 8 + nc, (uint64_t)cap), (uint64_t)(consumed.load() & 0xff)));
+    Json j; j.obj(); j.kv("class", "C"); j.kv("seed", (unsigned long long)seed); j.kv("producers", np); j.kv("consumers", nc); j.kv("capacity", cap); j.kv("pushes_per_producer", per); j.kv("pinned_to_2_cpus", pin2); j.end_obj();
+    if (false_full.load()) R.violation(cls_key('C', "try_push-false-not-full"), std::to_string(false_full.load()) + " try_push/try_emplace calls returned false although the caller held one of the " + std::to_string(cap) + " credits (at most capacity-1 values could be inside at any instant of the call); first: value " + std::to_string(first_bad_val.load()), j.s);
+    else if (fifo_bad.load()) R.violation(cls_key('C', "fifo-per-producer"), std::to_string(fifo_bad.load()) + " values reached a consumer out of their producer's order (or twice)", j.s);
+    else if (consumed.load() != (long)np * per || q.size() != 0) R.violation(cls_key('C', "value-lost"), "pushed " + std::to_string((long)np * per) + ", delivered " + std::to_string(consumed.load()) + ", size() " + std::to_string((long)q.size()), j.s);
+}
+
 } // namespace c09
